@@ -66,7 +66,14 @@ int main(int argc, char** argv)
         }
         pj += "]}";
         R.program(pj);
-        lr_guarded<Cell, vrf::mutex_t> lr(false);
+        // constructed from a non-empty initial value: both internal copies must start out equal to it
+        Cell initial_value;
+        initial_value.set_raw(200);
+        lr_guarded<Cell, vrf::mutex_t> lr(initial_value);
+        auto strip_initial = [](std::vector<uint32_t>& v, const char* where) {
+            if (v.empty() || v[0] != 200) vrf::violation("oracle:initial_value_missing", std::string("{\"where\":\"") + where + "\",\"log\":" + vrf::jnums(v) + "}");
+            v.erase(v.begin());
+        };
         std::vector<ReadRec> reads[vrf::MAXT];
         std::vector<ModRec> mods[vrf::MAXT];
         std::atomic<uint64_t> functor_calls{0};
@@ -109,12 +116,17 @@ int main(int argc, char** argv)
                             vrf::tl_vt_label = -static_cast<int>(t) - 1;
                             h->check("reader");
                             rr.seen = h->log();
+                            strip_initial(rr.seen, "reader");
                             for (int i = 0; i < a.hold; i++) {
                                 if (i % 2) vrf::hyield();
                                 else vrf::user_point();
                             }
                             h->check("reader (2)");
-                            if (h->log() != rr.seen) vrf::violation("oracle:object_changed_under_shared_handle", "{\"seen\":" + vrf::jnums(rr.seen) + "}");
+                            {
+                                auto again = h->log();
+                                strip_initial(again, "reader (2)");
+                                if (again != rr.seen) vrf::violation("oracle:object_changed_under_shared_handle", "{\"seen\":" + vrf::jnums(rr.seen) + "}");
+                            }
                         }
                         rr.ret = vrf::now();
                         reads[t].push_back(std::move(rr));
@@ -130,6 +142,7 @@ int main(int argc, char** argv)
                 auto h = lr.lock_shared();
                 h->check("final a");
                 fa = h->log();
+                strip_initial(fa, "final a");
             }
             lr.modify([](Cell& c) {
                 Win w(c, true);
@@ -139,6 +152,7 @@ int main(int argc, char** argv)
                 auto h = lr.lock_shared();
                 h->check("final b");
                 fb = h->log();
+                strip_initial(fb, "final b");
             }
         });
         if (fa != fb) vrf::violation("oracle:two_copies_differ_at_quiescence", "{\"a\":" + vrf::jnums(fa) + ",\"b\":" + vrf::jnums(fb) + "}");
